@@ -16,17 +16,18 @@ from vlib.node import Node
 
 META = {
     'level_text': 'Theorems for all histories of client reads/writes and driver-side calls/assignments: struct_members_agree (struct[m] = '
-                  'member m after every operation, both layouts, any oracle outcome of the driver bodies incl. failures in the middle of '
-                  'a struct access), floatenum_consistent_partial (value = valuedict[index] after every operation; a write hands the driver an '
-                  'index whose value no other label is closer to) + closest_first_minimum (tie rule of min()), limits_enforced (an accepted write is inside '
-                  'every limit parameter current at that moment; an inverted limits pair is refused and changes nothing), '
-                  'single_controller + takeover_switches_off + controlled_by_names_active.  Models tied to frappy/extparams.py, '
+                  'member m after every operation, both layouts, any oracle outcome of the driver bodies incl. SECoP errors and arbitrary '
+                  'exceptions at any member position of a struct access), floatenum_consistent (value = valuedict[index] after every '
+                  'operation incl. driver-side assignment to the float itself; a write hands the driver an index whose value no other '
+                  'label is closer to) + closest_first_minimum (tie rule of min()), limits_enforced (an accepted write is inside every '
+                  'limit parameter current at that moment; an inverted limits pair is refused and changes nothing), single_controller '
+                  '(per output, any wiring of inputs to several outputs) + takeover_switches_off + outputs_independent (an operation on '
+                  'one output changes nothing of another) + controlled_by_names_active.  Models tied to frappy/extparams.py, '
                   'params.Limit, modulebase.checkLimits and mixins.py by a correspondence run on real modules behind a real dispatcher; '
                   'the Lean monitors judge the values recorded after every operation.',
     'level_note': 'Trusted: Lean kernel + axioms propext/Classical.choice/Quot.sound; values are exact rationals (integers over a common '
                   'denominator) - binary64 subtraction/comparison is assumed to agree on the generated values; driver method bodies are '
-                  'scripted oracles; floatenum_consistent is partial: a driver-side assignment to the float parameter itself is excluded '
-                  '(recorded finding, proved counterexample).',
+                  'scripted oracles (value / None / SECoP error / ValueError, KeyError, ZeroDivisionError).',
     'trusted': [
         'float distance comparison: abs(vdict[i] - x) compared in binary64 agrees with the exact rational comparison on the generated '
         'values (dyadic values are exact; for label-derived values the generator keeps x away from near-ties)',
@@ -63,9 +64,37 @@ def _on_alarm(signum, frame):
     raise CaseTimeout()
 
 
-def _hwerror():
+FAIL_TAGS = ['fail:secop', 'fail:value', 'fail:key', 'fail:zerodiv']
+EXC_NAMES = {'HardwareError': 'secop', 'ValueError': 'value', 'KeyError': 'key', 'ZeroDivisionError': 'zerodiv'}
+
+
+def is_fail(v):
+    return isinstance(v, str) and v.startswith('fail:')
+
+
+def fail_tag(rng):
+    """a scripted driver failure: a SECoP error or an arbitrary exception (garbled reply, missing key, ...)"""
+    return rng.choice(['fail:secop', 'fail:secop', 'fail:value', 'fail:key', 'fail:zerodiv'])
+
+
+def raise_kind(tag):
     from frappy.errors import HardwareError
-    return HardwareError('scripted failure')
+    if tag == 'fail:secop':
+        raise HardwareError('scripted failure')
+    if tag == 'fail:value':
+        raise ValueError('scripted failure: garbled reply')
+    if tag == 'fail:key':
+        raise KeyError('scripted failure')
+    if tag == 'fail:zerodiv':
+        raise ZeroDivisionError('scripted failure')
+    raise RuntimeError(f'script exhausted / bad tag {tag!r}')     # model and code took different paths
+
+
+def reply_outcome(reply):
+    """(accepted, kind of the driver exception that escaped) of a reply triple"""
+    if reply[0].startswith('error_'):
+        return False, EXC_NAMES.get(reply[2][1])
+    return True, None
 
 
 def num(v):
@@ -136,13 +165,13 @@ def build_struct_class(case, cur):
     ns = {'ctrl': StructParam('ctrl struct', {m: Parameter(m, FloatRange()) for m in members}, prefix, readonly=False)}
 
     def rd(v):
-        if v is None:
-            raise HardwareError('scripted failure')
+        if v is None or is_fail(v):
+            raise_kind(v)
         return v
 
     def wr(v):
-        if v == 'fail':
-            raise HardwareError('scripted failure')
+        if v is None or is_fail(v):
+            raise_kind(v)
         if v == 'none':
             return None
         return v
@@ -153,14 +182,14 @@ def build_struct_class(case, cur):
 
         def write_ctrl(self, value):
             cur.setdefault('written', []).append(dict(value))
-            return wr(cur['wA'].pop(0)) if cur.get('wA') else wr('fail')
+            return wr(cur['wA'].pop(0)) if cur.get('wA') else wr(None)
         ns['read_ctrl'] = read_ctrl
         ns['write_ctrl'] = write_ctrl
     else:
         for m in case['hasR']:
             ns['read_' + prefix + m] = lambda self, m=m: rd(cur.get('rB', {}).get(m))
         for m in case['hasW']:
-            ns['write_' + prefix + m] = lambda self, value, m=m: wr(cur.get('wB', {}).get(m, 'fail'))
+            ns['write_' + prefix + m] = lambda self, value, m=m: wr(cur.get('wB', {}).get(m))
     return type('StructMod', (Module,), ns)
 
 
@@ -185,7 +214,7 @@ def impl_struct(case):
     mod = node.modules['m']
     members, prefix = case['members'], case['prefix']
 
-    def snapshot(ok):
+    def snapshot(ok, exc=None):
         evs = []
         for par, val in updates(conn, 'm'):
             if par == '_ctrl':
@@ -194,41 +223,41 @@ def impl_struct(case):
                 evs.append(['mem', par[1 + len(prefix):], num(val)])
         return {'struct': obs_dict(members, mod.parameters['ctrl'].value),
                 'mem': [[m, num(mod.parameters[prefix + m].value)] for m in members],
-                'evs': evs, 'ok': ok}
+                'evs': evs, 'ok': ok, 'exc': exc}
 
     trace = [snapshot(True)]
     for op in case['ops']:
         kind, via = op[0], op[-1]
         cur.clear()
-        ok = True
+        ok, exc = True, None
         try:
             if kind == 'readStruct':
-                cur['rA'] = [None if op[1] is None else dict_in(op[1])]
+                cur['rA'] = [op[1] if is_fail(op[1]) else dict_in(op[1])]
                 cur['rB'] = dict(zip(members, op[2]))
                 if via == 'req':
-                    ok = ok_reply(node.request(conn, 'read', 'm:_ctrl'))
+                    ok, exc = reply_outcome(node.request(conn, 'read', 'm:_ctrl'))
                 else:
                     mod.read_ctrl()
             elif kind == 'writeStruct':
                 cur['wA'] = [op[2] if isinstance(op[2], str) else dict_in(op[2])]
                 cur['wB'] = dict(zip(members, op[3]))
                 if via == 'req':
-                    ok = ok_reply(node.request(conn, 'change', 'm:_ctrl', dict_in(op[1])))
+                    ok, exc = reply_outcome(node.request(conn, 'change', 'm:_ctrl', dict_in(op[1])))
                 else:
                     mod.write_ctrl(dict_in(op[1]))
             elif kind == 'readMember':
-                cur['rA'] = [None if op[2] is None else dict_in(op[2])]
+                cur['rA'] = [op[2] if is_fail(op[2]) else dict_in(op[2])]
                 cur['rB'] = {op[1]: op[3]}
                 if via == 'req':
-                    ok = ok_reply(node.request(conn, 'read', 'm:_' + prefix + op[1]))
+                    ok, exc = reply_outcome(node.request(conn, 'read', 'm:_' + prefix + op[1]))
                 else:
                     getattr(mod, 'read_' + prefix + op[1])()
             elif kind == 'writeMember':
                 cur['wA'] = [op[3] if isinstance(op[3], str) else dict_in(op[3])]
-                cur['rA'] = [None if op[4] is None else dict_in(op[4])]
+                cur['rA'] = [op[4] if is_fail(op[4]) else dict_in(op[4])]
                 cur['wB'] = {op[1]: op[5]}
                 if via == 'req':
-                    ok = ok_reply(node.request(conn, 'change', 'm:_' + prefix + op[1], op[2]))
+                    ok, exc = reply_outcome(node.request(conn, 'change', 'm:_' + prefix + op[1], op[2]))
                 else:
                     getattr(mod, 'write_' + prefix + op[1])(op[2])
             elif kind == 'assignStruct':
@@ -239,9 +268,9 @@ def impl_struct(case):
                 ok = mod.parameters[prefix + op[1]].readerror is None
             else:
                 raise ValueError(kind)
-        except Exception:
-            ok = False
-        trace.append(snapshot(ok))
+        except Exception as e:
+            ok, exc = False, EXC_NAMES.get(type(e).__name__)
+        trace.append(snapshot(ok, exc))
     return trace
 
 
@@ -271,7 +300,7 @@ def gen_struct(rng, big):
     def rdict():
         r = rng.random()
         if r < 0.12:
-            return None
+            return fail_tag(rng)
         if r < 0.17 and len(members) > 1:       # malformed: a member is missing
             d = full()
             d.pop(rng.randrange(len(d)))
@@ -281,7 +310,7 @@ def gen_struct(rng, big):
     def wdict(v):
         r = rng.random()
         if r < 0.12:
-            return 'fail'
+            return fail_tag(rng)
         if r < 0.35:
             return 'none'
         if r < 0.75:
@@ -289,12 +318,12 @@ def gen_struct(rng, big):
         return full()
 
     def rval():
-        return None if rng.random() < 0.15 else val()
+        return fail_tag(rng) if rng.random() < 0.15 else val()
 
     def wval(v):
         r = rng.random()
         if r < 0.15:
-            return 'fail'
+            return fail_tag(rng)
         if r < 0.4:
             return 'none'
         if r < 0.8:
@@ -355,16 +384,16 @@ def build_fe_class(case, cur):
     if case['hasR']:
         def read_x_idx(self):
             v = cur.get('r')
-            if v is None:
-                raise HardwareError('scripted failure')
+            if v is None or is_fail(v):
+                raise_kind(v)
             return v
         ns['read_x_idx'] = read_x_idx
     if case['hasW']:
         def write_x_idx(self, value):
             cur['selected'] = int(value)
-            w = cur.get('w', 'fail')
-            if w == 'fail':
-                raise HardwareError('scripted failure')
+            w = cur.get('w')
+            if w is None or is_fail(w):
+                raise_kind(w)
             return None if w == 'none' else w
         ns['write_x_idx'] = write_x_idx
     return type('FEMod', (Module,), ns)
@@ -394,7 +423,7 @@ def impl_floatenum(case):
     vdict = [[int(k), float(v)] for k, v in pobj.valuedict.items()]
     lo, hi = pobj.datatype.min, pobj.datatype.max
 
-    def snapshot(ok, write=None):
+    def snapshot(ok, write=None, exc=None):
         evs = []
         for par, val in updates(conn, 'm'):
             if par == '_x':
@@ -403,19 +432,19 @@ def impl_floatenum(case):
                 evs.append(['idx', int(val)])
         # what a client reads: the reply of a `read` request is the cache entry
         return {'idx': int(mod.parameters['x_idx'].value), 'value': float(pobj.value), 'evs': evs, 'ok': ok,
-                'write': write, 'selected': cur.get('selected')}
+                'exc': exc, 'write': write, 'selected': cur.get('selected')}
 
     trace = [snapshot(True)]
     for op in case['ops']:
         kind, via = op[0], op[-1]
         cur.clear()
-        ok, write = True, None
+        ok, write, exc = True, None, None
         try:
             if kind == 'writeFloat':
                 write = float(op[1])
                 cur['w'] = op[2]
                 if via == 'req':
-                    ok = ok_reply(node.request(conn, 'change', 'm:_x', op[1]))
+                    ok, exc = reply_outcome(node.request(conn, 'change', 'm:_x', op[1]))
                 else:
                     mod.write_x(op[1])
                 if ok and not case['hasW']:
@@ -423,18 +452,18 @@ def impl_floatenum(case):
             elif kind == 'writeIdx':
                 cur['w'] = op[2]
                 if via == 'req':
-                    ok = ok_reply(node.request(conn, 'change', 'm:_x_idx', op[1]))
+                    ok, exc = reply_outcome(node.request(conn, 'change', 'm:_x_idx', op[1]))
                 else:
                     mod.write_x_idx(op[1])
             elif kind == 'readIdx':
                 cur['r'] = op[1]
                 if via == 'req':
-                    ok = ok_reply(node.request(conn, 'read', 'm:_x_idx'))
+                    ok, exc = reply_outcome(node.request(conn, 'read', 'm:_x_idx'))
                 else:
                     mod.read_x_idx()
             elif kind == 'readFloat':
                 if via == 'req':
-                    ok = ok_reply(node.request(conn, 'read', 'm:_x'))
+                    ok, exc = reply_outcome(node.request(conn, 'read', 'm:_x'))
                 else:
                     mod.read_x()
             elif kind == 'assignIdx':
@@ -445,9 +474,9 @@ def impl_floatenum(case):
                 ok = pobj.readerror is None
             else:
                 raise ValueError(kind)
-        except Exception:
-            ok = False
-        trace.append(snapshot(ok, write))
+        except Exception as e:
+            ok, exc = False, EXC_NAMES.get(type(e).__name__)
+        trace.append(snapshot(ok, write, exc))
     return vdict, lo, hi, trace
 
 
@@ -484,7 +513,7 @@ def fe_requests(case, vdict, lo, hi, trace):
             t['value'] = sc(lo) - 1
     judge = {'p': 'C18', 'k': 'judge_floatenum', 'vdict': wvd, 'trace': jtrace}
     canon = [{'idx': t['idx'], 'value': jt['value'],
-              'evs': [[e[0], sc(e[1]) if e[0] == 'value' else e[1]] for e in t['evs']], 'ok': t['ok']}
+              'evs': [[e[0], sc(e[1]) if e[0] == 'value' else e[1]] for e in t['evs']], 'ok': t['ok'], 'exc': t['exc']}
              for t, jt in zip(trace, jtrace)]
     return model, judge, canon
 
@@ -542,7 +571,7 @@ def gen_floatenum(rng, big):
     def widx(i):
         r = rng.random()
         if r < 0.12:
-            return 'fail'
+            return fail_tag(rng)
         if r < 0.4:
             return 'none'
         if r < 0.8:
@@ -551,7 +580,7 @@ def gen_floatenum(rng, big):
 
     n = rng.randint(1, 30 if big else 12)
     ops = []
-    with_assign_float = rng.random() < 0.2      # the recorded finding: kept out of most histories
+    with_assign_float = rng.random() < 0.7      # driver-side assignment to the float itself (repaired finding of round 1)
     for _ in range(n):
         via = rng.choice(['req', 'call'])
         r = rng.random()
@@ -562,13 +591,13 @@ def gen_floatenum(rng, big):
             while not dyadic and near_tie(x):
                 x = xval()
             # the driver mostly takes the selected index over
-            w = rng.choice(['none', 'none', 'none', 'fail', rng.choice(idxs)])
+            w = rng.choice(['none', 'none', 'none', fail_tag(rng), rng.choice(idxs)])
             ops.append(['writeFloat', x, w, via])
         elif r < 0.55:
             i = rng.choice(idxs + [max(idxs) + 1])
             ops.append(['writeIdx', i, widx(i), via])
         elif r < 0.68:
-            ops.append(['readIdx', None if rng.random() < 0.15 else rng.choice(idxs + [max(idxs) + 2] * (rng.random() < 0.1)), via])
+            ops.append(['readIdx', fail_tag(rng) if rng.random() < 0.15 else rng.choice(idxs + [max(idxs) + 2] * (rng.random() < 0.1)), via])
         elif r < 0.76:
             ops.append(['readFloat', via])
         elif r < 0.9:
@@ -611,9 +640,9 @@ def build_limits_class(case, cur):
             ns[f'{p}_{post}'] = Limit()
     if case['hasW']:
         def write_p(self, value):
-            w = cur.get('w', 'fail')
-            if w == 'fail':
-                raise HardwareError('scripted failure')
+            w = cur.get('w')
+            if w is None or is_fail(w):
+                raise_kind(w)
             return None if w == 'none' else w / LSCALE
         ns['write_' + p] = write_p
     return type('LimMod', (Writable if p == 'target' else Module,), ns)
@@ -638,7 +667,7 @@ def impl_limits(case):
                 'max': sc(getattr(mod, p + '_max')) if case['has_max'] else None,
                 'limits': [sc(v) for v in getattr(mod, p + '_limits')] if case['has_limits'] else None}
 
-    def snapshot(ok, before, rec):
+    def snapshot(ok, before, rec, exc=None):
         evs = []
         for par, val in updates(conn, 'm'):
             if par == ex(p):
@@ -649,7 +678,7 @@ def impl_limits(case):
                 evs.append(['max', sc(val)])
             elif par == ex(p + '_limits'):
                 evs.append(['limits', sc(val[0]), sc(val[1])])
-        return dict(rec, ok=ok, before=before, after=limits(), value=sc(getattr(mod, p)), evs=evs)
+        return dict(rec, ok=ok, exc=exc, before=before, after=limits(), value=sc(getattr(mod, p)), evs=evs)
 
     norec = {'write': None, 'echo': False, 'setLimits': None}
     trace = [snapshot(True, limits(), norec)]
@@ -658,26 +687,26 @@ def impl_limits(case):
         cur.clear()
         before = limits()
         rec = dict(norec)
-        ok = True
+        ok, exc = True, None
         try:
             if kind == 'write':
                 cur['w'] = op[2]
                 rec['write'] = op[1]
                 rec['echo'] = (not case['hasW']) or op[2] == 'none' or op[2] == op[1]
                 if via == 'req':
-                    ok = ok_reply(node.request(conn, 'change', 'm:' + ex(p), op[1] / LSCALE))
+                    ok, exc = reply_outcome(node.request(conn, 'change', 'm:' + ex(p), op[1] / LSCALE))
                 else:
                     getattr(mod, 'write_' + p)(op[1] / LSCALE)
             elif kind in ('writeMin', 'writeMax'):
                 name = p + ('_min' if kind == 'writeMin' else '_max')
                 if via == 'req':
-                    ok = ok_reply(node.request(conn, 'change', 'm:' + ex(name), op[1] / LSCALE))
+                    ok, exc = reply_outcome(node.request(conn, 'change', 'm:' + ex(name), op[1] / LSCALE))
                 else:
                     getattr(mod, 'write_' + name)(op[1] / LSCALE)
             elif kind == 'writeLimits':
                 rec['setLimits'] = [op[1], op[2]]
                 if via == 'req':
-                    ok = ok_reply(node.request(conn, 'change', 'm:' + ex(p + '_limits'), [op[1] / LSCALE, op[2] / LSCALE]))
+                    ok, exc = reply_outcome(node.request(conn, 'change', 'm:' + ex(p + '_limits'), [op[1] / LSCALE, op[2] / LSCALE]))
                 else:
                     getattr(mod, 'write_' + p + '_limits')((op[1] / LSCALE, op[2] / LSCALE))
             elif kind == 'assign':
@@ -692,9 +721,9 @@ def impl_limits(case):
                 ok = mod.parameters[p + '_limits'].readerror is None
             else:
                 raise ValueError(kind)
-        except Exception:
-            ok = False
-        trace.append(snapshot(ok, before, rec))
+        except Exception as e:
+            ok, exc = False, EXC_NAMES.get(type(e).__name__)
+        trace.append(snapshot(ok, before, rec, exc))
     return trace
 
 
@@ -712,12 +741,12 @@ def judge_limits_req(trace):
 def limits_canon(case, t):
     """observation compared with the model: the model carries all three limit parameters, the code only those that exist"""
     return {'value': t['value'], 'min': t['after']['min'], 'max': t['after']['max'], 'limits': t['after']['limits'],
-            'evs': t['evs'], 'ok': t['ok']}
+            'evs': t['evs'], 'ok': t['ok'], 'exc': t['exc']}
 
 
 def model_limits_canon(case, s):
     return {'value': s['value'], 'min': s['min'] if case['has_min'] else None, 'max': s['max'] if case['has_max'] else None,
-            'limits': s['limits'] if case['has_limits'] else None, 'evs': s['evs'], 'ok': s['ok']}
+            'limits': s['limits'] if case['has_limits'] else None, 'evs': s['evs'], 'ok': s['ok'], 'exc': s['exc']}
 
 
 def gen_limits(rng, big):
@@ -748,7 +777,7 @@ def gen_limits(rng, big):
         r = rng.random()
         if r < 0.45:
             x = anyval()
-            w = rng.choice(['none', 'none', x, 'fail', inside()])
+            w = rng.choice(['none', 'none', x, fail_tag(rng), inside()])
             ops.append(['write', x, w, via])
         elif r < 0.55 and has['min']:
             ops.append(['writeMin', anyval(), via])
@@ -824,14 +853,21 @@ def build_control_classes(case):
 
 
 def impl_control(case):
+    """several outputs in one node, input k attached to output case['outs'][k]"""
     Out, In = build_control_classes(case)
-    n = case['n']
-    cfg = {'out': {'cls': Out, 'description': 'x'}}
+    outs_of = case['outs']
+    n, nout = len(outs_of), case['nout']
+    cfg = {}
+    for o in range(nout):
+        cfg[f'out{o}'] = {'cls': Out, 'description': 'x'}
     for k in range(n):
-        cfg[f'in{k}'] = {'cls': In, 'description': 'x', 'output_module': 'out'}
+        cfg[f'in{k}'] = {'cls': In, 'description': 'x', 'output_module': f'out{outs_of[k]}'}
     node, conn = new_node(cfg)
-    out = node.modules['out']
+    outs = [node.modules[f'out{o}'] for o in range(nout)]
     ins = [node.modules[f'in{k}'] for k in range(n)]
+
+    def cb_of(o, name):
+        return None if name == 'self' else int(name[2:])
 
     def snapshot(ok):
         evs = []
@@ -839,14 +875,16 @@ def impl_control(case):
             if msg[0] != 'update':
                 continue
             mod, par = msg[1].split(':')
-            if mod == 'out' and par == 'controlled_by':
-                evs.append(['cb', None if msg[2][0] == 0 else msg[2][0] - 1])
+            if mod.startswith('out') and par == 'controlled_by':
+                o = int(mod[3:])
+                # the update carries the enum value: translate through the output's own enum
+                member = outs[o].parameters['controlled_by'].datatype(msg[2][0])
+                evs.append(['cb', o, cb_of(o, member.name)])
             elif mod.startswith('in') and par == 'control_active':
                 evs.append(['act', int(mod[2:]), bool(msg[2][0])])
         conn.msgs.clear()
-        name = out.controlled_by.name
-        return {'cb': None if name == 'self' else int(name[2:]), 'act': [bool(m.control_active) for m in ins],
-                'evs': evs, 'ok': ok}
+        return {'cb': [cb_of(o, outs[o].controlled_by.name) for o in range(nout)],
+                'act': [bool(m.control_active) for m in ins], 'evs': evs, 'ok': ok}
 
     trace = [snapshot(True)]
     for op in case['ops']:
@@ -860,17 +898,17 @@ def impl_control(case):
                     ins[op[1]].write_target(1.5)
             elif kind == 'writeOut':
                 if via == 'req':
-                    ok = ok_reply(node.request(conn, 'change', 'out:target', 2.5))
+                    ok = ok_reply(node.request(conn, 'change', f'out{op[1]}:target', 2.5))
                 else:
-                    out.write_target(2.5)
+                    outs[op[1]].write_target(2.5)
             elif kind == 'activate':
                 ins[op[1]].activate_control()
             elif kind == 'deactivate':
                 ins[op[1]].deactivate_control('harness')
             elif kind == 'selfControlled':
-                out.self_controlled()
+                outs[op[1]].self_controlled()
             elif kind == 'updateTarget':
-                out.update_target(f'in{op[1]}', 3.5)
+                outs[op[1]].update_target(f'in{op[2]}', 3.5)
             else:
                 raise ValueError(kind)
         except Exception:
@@ -890,25 +928,35 @@ def wire_control_ops(case):
 
 
 def gen_control(rng, big):
-    n = rng.choice([1, 2, 2, 3, 3])
+    nout = rng.choice([1, 1, 2, 2, 3])
+    # 0..3 inputs per output, at least one input in the node; the numbering of the inputs is shuffled over the outputs
+    outs = []
+    for o in range(nout):
+        outs += [o] * rng.choice([0, 1, 1, 2, 2, 3])
+    if not outs:
+        outs = [rng.randrange(nout)]
+    rng.shuffle(outs)
+    n = len(outs)
     ops = []
     for _ in range(rng.randint(1, 30 if big else 12)):
         via = rng.choice(['req', 'call'])
         r = rng.random()
         k = rng.randrange(n)
+        o = rng.randrange(nout)
         if r < 0.4:
             ops.append(['writeIn', k, via])
         elif r < 0.55:
-            ops.append(['writeOut', via])
+            ops.append(['writeOut', o, via])
         elif r < 0.7:
             ops.append(['activate', k, 'drv'])
-        elif r < 0.8:
+        elif r < 0.78:
             ops.append(['deactivate', k, 'drv'])
         elif r < 0.88:
-            ops.append(['selfControlled', 'drv'])
+            ops.append(['selfControlled', o, 'drv'])
         else:
-            ops.append(['updateTarget', k, 'drv'])
-    return {'kind': 'control', 'n': n, 'guarded': rng.random() < 0.6, 'drivable': rng.random() < 0.4, 'ops': ops}
+            ops.append(['updateTarget', o, k, 'drv'])
+    return {'kind': 'control', 'nout': nout, 'outs': outs, 'guarded': rng.random() < 0.6, 'drivable': rng.random() < 0.4,
+            'ops': ops}
 
 
 # ----------------------------------------------------------------------------------------
@@ -930,8 +978,8 @@ def prepare(case):
     if kind == 'control':
         trace = impl_control(case)
         ops = wire_control_ops(case)
-        return trace, {'p': 'C18', 'k': 'control', 'n': case['n'], 'ops': ops}, \
-            {'p': 'C18', 'k': 'judge_control', 'n': case['n'], 'ops': ops,
+        return trace, {'p': 'C18', 'k': 'control', 'nout': case['nout'], 'outs': case['outs'], 'ops': ops}, \
+            {'p': 'C18', 'k': 'judge_control', 'nout': case['nout'], 'outs': case['outs'], 'ops': ops,
              'trace': [{'cb': t['cb'], 'act': t['act']} for t in trace]}, trace
     raise ValueError(kind)
 
@@ -946,7 +994,7 @@ def model_obs(case, answer):
 def impl_obs(case, canon):
     kind = case['kind']
     if kind == 'struct':
-        return [{k: t[k] for k in ('struct', 'mem', 'evs', 'ok')} for t in canon]
+        return [{k: t[k] for k in ('struct', 'mem', 'evs', 'ok', 'exc')} for t in canon]
     if kind == 'control':
         return [{k: t[k] for k in ('cb', 'act', 'evs', 'ok')} for t in canon]
     return canon
